@@ -3,9 +3,12 @@ package c18
 import (
 	"bytes"
 	"context"
+	"encoding/hex"
 	"fmt"
+	"github.com/attestantio/go-eth2-client/spec/phase0"
 	"strconv"
 	"strings"
+	"sync"
 	"testing"
 	"time"
 
@@ -201,6 +204,98 @@ func genTopic(t *rapid.T) TopicProg {
 	}
 }
 
+// ---- (a2) envelope agreement across the activation epoch, in one process ---------------------------------
+//
+// Publisher and validator decide per message, from the clock, whether the signed envelope applies (epoch > activation
+// epoch). A node that runs across the activation epoch must switch with its peers. One case = one long-lived network
+// object broadcasting at a non-decreasing sequence of epochs around the activation epoch; every published message
+// must have the format the rule demands at that epoch (computed here) and must get past the envelope / size checks
+// of a validator whose clock shows the same epoch.
+
+type ForkProg struct {
+	PK      []byte `json:"pk"`
+	Payload []byte `json:"payload"`
+	OpID    uint64 `json:"op_id"`
+	Offs    []int  `json:"offs"` // epochs relative to the activation epoch, non-decreasing
+}
+
+func runFork(p ForkProg) *prog.Result {
+	res := &prog.Result{}
+	fail := func(sig, f string, a ...any) *prog.Result {
+		res.Fail = prog.Failf("C18:"+sig, f, a...)
+		return res
+	}
+	const actOff = 5
+	env := valfx.NewEnvActivation(actOff)
+	ods := operatordatastore.New(&registrystorage.OperatorData{ID: p.OpID})
+	ctrl := &recCtrl{}
+	signerKey := env.OpKeys[1]
+	n := p2pv1.New(zap.NewNop(), &p2pv1.Config{Ctx: context.Background(), Network: env.NetCfg, OperatorSigner: signerKey,
+		OperatorDataStore: ods, RequestTimeout: time.Second}, nil)
+	n = p2pv1.NewWithTopicsControllerVerif(n, ctrl)
+	b := env.NetCfg.Beacon
+	msg := &spectypes.SSVMessage{MsgType: spectypes.SSVConsensusMsgType, MsgID: spectypes.NewMsgID(env.NetCfg.Domain, p.PK, spectypes.BNRoleAttester), Data: p.Payload}
+	before, after := 0, 0
+	for i, off := range p.Offs {
+		epoch := phase0.Epoch(int(valfx.BaseEpoch) + actOff + off)
+		now := b.GetSlotStartTime(b.FirstSlotAtEpoch(epoch)).Add(time.Second)
+		env.Clock.Set(now)
+		wantSigned := off > 0 // the rule: signed envelopes for epochs strictly after the activation epoch
+		if wantSigned {
+			after++
+		} else {
+			before++
+		}
+		k := len(ctrl.pubs)
+		if err := n.Broadcast(msg); err != nil {
+			return fail("broadcast-error", "Broadcast #%d at activation%+d: %v", i, off, err)
+		}
+		if len(ctrl.pubs) != k+1 {
+			return fail("publish-count", "Broadcast #%d published %d messages", i, len(ctrl.pubs)-k)
+		}
+		data := ctrl.pubs[k].data
+		if wantSigned {
+			inner, op, sig, err := commons.DecodeSignedSSVMessage(data)
+			if err != nil || op != p.OpID || signerKey.Public().Verify(inner, sig) != nil {
+				return fail("envelope-format-across-activation", "broadcast #%d at activation epoch %+d (after %v earlier broadcasts at %v): the published bytes are not a signed envelope of operator %d (decode err=%v)", i, off, i, p.Offs[:i], p.OpID, err)
+			}
+			if dec, err := commons.DecodeNetworkMsg(inner); err != nil || !bytes.Equal(dec.Data, p.Payload) || dec.MsgID != msg.MsgID {
+				return fail("envelope-payload-across-activation", "broadcast #%d at activation epoch %+d: signed payload does not decode to the message (err=%v)", i, off, err)
+			}
+		} else {
+			if dec, err := commons.DecodeNetworkMsg(data); err != nil || !bytes.Equal(dec.Data, p.Payload) || dec.MsgID != msg.MsgID {
+				return fail("envelope-format-across-activation", "broadcast #%d at activation epoch %+d (after earlier broadcasts at %v): the published bytes are not the bare message (err=%v)", i, off, p.Offs[:i], err)
+			}
+		}
+		// the receiving side at the same epoch: must get past the envelope / size / decoding checks
+		_, _, verr := validation.ValidateP2PMessageAt(env.MV, valfx.PMsg(commons.GetTopicFullName(ctrl.pubs[k].topic), data), now)
+		if t := validation.ErrorText(verr); t == validation.ErrMalformedSignedMessage.Text() || t == validation.ErrMalformedPubSubMessage.Text() || t == validation.ErrPubSubDataTooBig.Text() {
+			return fail("validator-rejects-envelope-across-activation", "broadcast #%d at activation epoch %+d (earlier broadcasts at %v): a validator whose clock shows the same epoch answers %v", i, off, p.Offs[:i], verr)
+		}
+	}
+	res.NonTrivial = before > 0 && after > 0
+	res.Classes = []string{fmt.Sprintf("crosses-activation=%v", before > 0 && after > 0), fmt.Sprintf("broadcasts=%d", len(p.Offs))}
+	return res
+}
+
+func genFork(t *rapid.T) ForkProg {
+	p := ForkProg{PK: genPK(t), Payload: rapid.SliceOfN(rapid.Byte(), 1, 300).Draw(t, "payload"), OpID: uint64(rapid.IntRange(1, 13).Draw(t, "op"))}
+	for len(p.PK) < 48 {
+		p.PK = append(p.PK, byte(len(p.PK)))
+	}
+	n := rapid.IntRange(2, 6).Draw(t, "nb")
+	off := rapid.IntRange(-3, 0).Draw(t, "first")
+	for i := 0; i < n; i++ {
+		p.Offs = append(p.Offs, off)
+		off += rapid.SampledFrom([]int{0, 0, 1, 1, 2}).Draw(t, "step")
+	}
+	return p
+}
+
+func TestPropEnvelopeAcrossActivation(t *testing.T) {
+	prog.Check(t, "C18", "TestPropEnvelopeAcrossActivation", genFork, runFork)
+}
+
 func TestPropTopicAgreement(t *testing.T) {
 	prog.Check(t, "C18", "TestPropTopicAgreement", genTopic, runTopic)
 }
@@ -327,6 +422,97 @@ func genSubnets(t *rapid.T) SubnetProg {
 
 func TestPropSubnets(t *testing.T) { prog.Check(t, "C18", "TestPropSubnets", genSubnets, runSubnets) }
 
+// ---- (c2) the encoding of a vector does not depend on earlier or concurrent encodings --------------------------
+//
+// String() is called from connection handlers, the subnets-update loop and log fields, on vectors of 128 entries
+// but also on empty ones (a node with no subnets) and on shorter ones (a peer's short announcement). A case is a list
+// of vectors encoded one after another and then by several goroutines at once; every result must be the encoding
+// computed here from the vector alone (entry i -> bit i%8 of byte i/8, absent entries 0, 32 hex digits).
+
+type SubnetHistProg struct {
+	Vecs    [][]byte `json:"vecs"` // 0..128 entries each, 0/1
+	Workers int      `json:"workers"`
+}
+
+func encodeSubnets(v []byte) string {
+	var b [16]byte
+	for i, x := range v {
+		if i < 128 && x > 0 {
+			b[i/8] |= 1 << uint(i%8)
+		}
+	}
+	return hex.EncodeToString(b[:])
+}
+
+func runSubnetHist(p SubnetHistProg) *prog.Result {
+	res := &prog.Result{}
+	short := false
+	for i, v := range p.Vecs {
+		short = short || len(v) < 128
+		if got, want := records.Subnets(v).String(), encodeSubnets(v); got != want {
+			res.Fail = prog.Failf("C18:subnets-string-depends-on-history", "vector #%d (%d entries) encoded after %d others: String() = %q, the vector alone encodes to %q", i, len(v), i, got, want)
+			return res
+		}
+	}
+	if p.Workers > 1 {
+		var wg sync.WaitGroup
+		bad := make(chan string, p.Workers)
+		for w := 0; w < p.Workers; w++ {
+			wg.Add(1)
+			go func(w int) {
+				defer wg.Done()
+				for rep := 0; rep < 200; rep++ {
+					v := p.Vecs[(w+rep)%len(p.Vecs)]
+					if got, want := records.Subnets(v).String(), encodeSubnets(v); got != want {
+						select {
+						case bad <- fmt.Sprintf("worker %d: String() of a %d-entry vector = %q, want %q", w, len(v), got, want):
+						default:
+						}
+						return
+					}
+				}
+			}(w)
+		}
+		wg.Wait()
+		select {
+		case m := <-bad:
+			res.Fail = prog.Failf("C18:subnets-string-concurrent", "%d goroutines encoding %d vectors at once: %s", p.Workers, len(p.Vecs), m)
+			return res
+		default:
+		}
+	}
+	res.NonTrivial = len(p.Vecs) > 1
+	res.Classes = []string{fmt.Sprintf("has-short-vector=%v", short), fmt.Sprintf("workers>1=%v", p.Workers > 1)}
+	return res
+}
+
+func genSubnetHist(t *rapid.T) SubnetHistProg {
+	n := rapid.IntRange(2, 6).Draw(t, "nvecs")
+	p := SubnetHistProg{Workers: rapid.SampledFrom([]int{1, 4, 16}).Draw(t, "workers")}
+	for i := 0; i < n; i++ {
+		l := rapid.SampledFrom([]int{128, 128, 128, 0, 1, 8, 24, 127}).Draw(t, "len")
+		v := make([]byte, l)
+		switch rapid.IntRange(0, 2).Draw(t, "fill") {
+		case 0:
+			for j := range v {
+				v[j] = 1
+			}
+		case 1:
+			for _, j := range rapid.SliceOfN(rapid.IntRange(0, 127), 0, 8).Draw(t, "set") {
+				if j < l {
+					v[j] = 1
+				}
+			}
+		}
+		p.Vecs = append(p.Vecs, v)
+	}
+	return p
+}
+
+func TestPropSubnetsHistory(t *testing.T) {
+	prog.Check(t, "C18", "TestPropSubnetsHistory", genSubnetHist, runSubnetHist)
+}
+
 // Native coverage-guided variants of (b) and (c) for the thorough tier.
 func FuzzEnvelope(f *testing.F) {
 	f.Add([]byte("payload"), uint64(7), []byte{1, 2, 3})
@@ -354,6 +540,11 @@ func FuzzSubnets(f *testing.F) {
 		}
 		prog.CheckOne(t, "C18", "TestPropSubnets", SubnetProg{Bits: bits}, runSubnets)
 	})
+}
+
+func TestReplayMore(t *testing.T) {
+	prog.Replay(t, "C18", "TestPropEnvelopeAcrossActivation", runFork)
+	prog.Replay(t, "C18", "TestPropSubnetsHistory", runSubnetHist)
 }
 
 func TestReplay(t *testing.T) {
